@@ -174,19 +174,87 @@ def tasks(tier):
     return out + _plan_tasks(tier)
 
 
+def h_swap_spin_kernel(env, raw=False, n=1, nctrl=2, nf=2):
+    """spin-label exchange at the spin-polarised kernel evaluators: SpinRBFEvaluator.__call__ -> evaluate_se_kernel_spin (interpreted from
+    model_utils.c) gives the same value for (X_a, X_b) and (X_b, X_a), and the gradient rows follow the labels; raw = True calls
+    evaluate_se_kernel_spin_v2 (interleaved layout) directly.  The control points, weights and length scales are symbolic and are not
+    exchanged: the symmetry is the kernel's, k((a,b),(c,d)) = k((b,a),(c,d))"""
+    from . import c11
+    if raw:
+        outs = []
+        for tag in ("ab", "ba"):
+            e2 = env
+            X = env.arr("X", (n, 2, nf), lo="-4", hi="4")
+            Xc = env.arr("Xc", (nctrl, 2, nf), lo="-4", hi="4")
+            al = env.arr("alpha", (nctrl,), lo="-4", hi="4")
+            ex = env.arr("e", (nf,), "pos", lo="1/8", hi="8")
+            Xin = X.copy() if tag == "ab" else X[:, ::-1].copy()
+            out, outd = env.zeros((n,)), env.zeros((n, 2, nf))
+            if env.sym:
+                from ..llsym import bridge
+                from ..llsym.interp import Obj, Ptr
+                it = bridge.new_interp(c11.CFILE)
+                mk = lambda nm, a: Ptr(Obj(nm, bridge._Flat(a), 8), 0)
+                it.call("evaluate_se_kernel_spin_v2", [mk("out", out), mk("outd", outd), mk("xin", Xin), mk("xctrl", Xc.copy()), mk("actrl", al.copy()), mk("exps", ex.copy()), n, nctrl, nf])
+            else:
+                import ctypes
+                from .. import replaylibs
+                lib = np.ctypeslib.load_library("libmcider", replaylibs.ensure())
+                pp = lambda a: a.ctypes.data_as(ctypes.c_void_p)
+                Xa, Xca, ala, exa = [np.ascontiguousarray(a, dtype=float) for a in (Xin, Xc, al, ex)]
+                lib.evaluate_se_kernel_spin_v2(pp(out), pp(outd), pp(Xa), pp(Xca), pp(ala), pp(exa), ctypes.c_int(n), ctypes.c_int(nctrl), ctypes.c_int(nf))
+            outs.append((out, outd))
+        (r0, d0), (r1, d1) = outs
+        for g in range(n):
+            env.equal("value_unchanged_by_label_exchange_%d" % g, r0[g], r1[g])
+            for sp in range(2):
+                for j in range(nf):
+                    env.equal("gradient_follows_labels_s%d_%d_%d" % (sp, g, j), d0[g, sp, j], d1[g, 1 - sp, j])
+        return
+    xe, K = env.m.xc_evaluator, env.m.kernels
+    X1 = env.arr("X1", (2, n, nf), lo="-4", hi="4")
+    Xc = env.arr("Xc", (2, nctrl, nf), lo="-4", hi="4")
+    al = env.arr("alpha", (nctrl,), lo="-4", hi="4")
+    ls = env.arr("l", (nf,), "pos", lo="1/8", hi="8")
+    c = env.par("c", "pos", hi="8")
+    kern = K.DiffConstantKernel(c) * K.DiffRBF(length_scale=ls.copy())
+    ev = xe.SpinRBFEvaluator(kern, Xc.copy(), al.copy())
+    r0, d0 = env.zeros((n,)), env.zeros((2, n, nf))
+    r1, d1 = env.zeros((n,)), env.zeros((2, n, nf))
+    ev(X1.copy(), r0, d0)
+    ev(X1[::-1].copy(), r1, d1)
+    for g in range(n):
+        env.equal("value_unchanged_by_label_exchange_%d" % g, r0[g], r1[g])
+        for sp in range(2):
+            for j in range(nf):
+                env.equal("gradient_follows_labels_s%d_%d_%d" % (sp, g, j), d0[sp, g, j], d1[1 - sp, g, j])
+
+
 def _plan_tasks(tier):
+    out = _plan_tasks0(tier)
+    for nf, nctrl in ((1, 1),) + (((2, 2),) if tier == "thorough" else ()):
+        out.append(Task("swap/spin_kernel/SpinRBFEvaluator/nf%d_nctrl%d" % (nf, nctrl), h_swap_spin_kernel, dict(raw=False, nf=nf, nctrl=nctrl), mods="kernels", max_paths=64))
+        out.append(Task("swap/spin_kernel/evaluate_se_kernel_spin_v2/nf%d_nctrl%d" % (nf, nctrl), h_swap_spin_kernel, dict(raw=True, nf=nf, nctrl=nctrl), mods="kernels", max_paths=64))
+    return out
+
+
+def _plan_tasks0(tier):
     return [Task("swap/plan/%s" % v, h_swap_plan, dict(version=v), mods="numint", max_paths=256) for v in (("j", "i", "ij", "k") if tier == "thorough" else ("j", "ij"))]
 
 
 def prepare(tier):
     m = sym_mods()
     m.td, m.fn, m.settings, m.plans, m.baselines, m.xc_evaluator, m.xc_evaluator2, m.numint
+    from . import c11
+    mk = sym_mods("kernels")
+    mk.kernels, mk.xc_evaluator
+    c11._install()
 
 
 META = dict(
     explanation="the real exponent / plan / eval_xc_cider code is executed symbolically for the polarised and the unpolarised "
                 "call and z3 decides term-by-term equality (closed shell, spin swap, separable identity)",
-    functions=['ciderpress/dft/plans.py: NLDFAuxiliaryPlan.eval_rho_full / eval_vxc_full on one plan object in the order F0 F1 P0 P1 with the channels exchanged (swap/plan/*)', "ciderpress/dft/settings.py: get_cider_exponent(_gga), get_s2, ds2, get_alpha, dalpha", "ciderpress/dft/plans.py: SemilocalPlan.get_feat/get_vxc",
+    functions=['ciderpress/dft/xc_evaluator.py: SpinRBFEvaluator.__call__ + ciderpress/lib/mod_cider/model_utils.c (clang IR): evaluate_se_kernel_spin, evaluate_se_kernel_spin_v2 under exchange of the spin labels (swap/spin_kernel/*; nf = nctrl = 1 quick, 2 thorough)', 'ciderpress/dft/plans.py: NLDFAuxiliaryPlan.eval_rho_full / eval_vxc_full on one plan object in the order F0 F1 P0 P1 with the channels exchanged (swap/plan/*)', "ciderpress/dft/settings.py: get_cider_exponent(_gga), get_s2, ds2, get_alpha, dalpha", "ciderpress/dft/plans.py: SemilocalPlan.get_feat/get_vxc",
                "ciderpress/pyscf/numint.py: CiderNumIntMixin.eval_xc_cider", "ciderpress/dft/xc_evaluator(2).py: MappedXC(2), MappedDFTKernel(2), KernelEvalBase(2)"],
     bounds=dict(grid_points=1, region="rho > 1e-6 per channel, tau > tau_W (composites); whole non-negative domain incl. both sides of rhocut (exponent leaf)",
                 nonlocal_inputs="per-channel raw non-local features of a closed shell equal the unpolarised ones (generator nspin factors: C01-L2/L3)"),
